@@ -7,6 +7,7 @@ import (
 
 	"verifharness/fw"
 	"verifharness/gen"
+	"verifharness/model"
 )
 
 // C09 — template inheritance resolves every block to its most-derived override.
@@ -21,7 +22,7 @@ type c09 struct {
 type c09group struct {
 	L, B   int
 	layout int // 0 flat, 1 nested, 2 block in a loop
-	use    int // 0 none, 1 plain, 2 aliased, 3 aliased at level 1 and plain at the leaf, 4 two use statements in one template
+	use    int // 0 none, 1 plain, 2 aliased, 3 aliased at level 1 and plain at the leaf, 4 two use statements in one template, 5 a chain of aliases in one statement
 	n      int
 }
 
@@ -42,7 +43,7 @@ func (p *c09) Init(tier string, seed int64) {
 		for L := 1; L <= 3; L++ {
 			for B := 1; B <= 2; B++ {
 				for layout := 0; layout < 3; layout++ {
-					for use := 0; use < 5; use++ {
+					for use := 0; use < 6; use++ {
 						if (L == 1 && use > 0) || (L < 3 && use == 3) || (B < 2 && use == 4) {
 							continue
 						}
@@ -60,7 +61,7 @@ func (p *c09) Init(tier string, seed int64) {
 		for L := 1; L <= 4; L++ {
 			for B := 1; B <= 3; B++ {
 				for layout := 0; layout < 3; layout++ {
-					for use := 0; use < 5; use++ {
+					for use := 0; use < 6; use++ {
 						if (layout == 0 && use == 0) || (L == 1 && use > 0) || (L < 3 && use == 3) || (B < 2 && use == 4) {
 							continue
 						}
@@ -138,6 +139,11 @@ func buildConfig(g c09group, pattern []int, exprParent bool, useLevel int) *Prog
 			// two use statements in one template: both libraries count
 			body = append(body, &gen.NUse{Tpl: str("ublk"), Aliases: [][2]string{{"orig0", "b0"}}}, &gen.NUse{Tpl: str("ublk2")})
 		}
+		if g.use == 5 && k == useLevel {
+			// a chain of aliases: each alias names the library's block of that name, so b0 is the library's orig1
+			// whatever orig1 is made to mean by the same statement
+			body = append(body, &gen.NUse{Tpl: str("ublk3"), Aliases: [][2]string{{"orig0", "orig1"}, {"orig1", "b0"}}})
+		}
 		if g.use == 3 {
 			// the same library at two levels: aliased onto b0 by the first child, as it is by the leaf
 			if k == 1 {
@@ -187,7 +193,10 @@ func buildConfig(g c09group, pattern []int, exprParent bool, useLevel int) *Prog
 		last := "b" + strconv.Itoa(g.B-1)
 		ts["ublk2"] = tpl("ublk2", &gen.NBlock{Name: last, Body: blockBody("ublk2."+last, true)}, &gen.NBlock{Name: "unrelated", Body: []gen.Node{tx("never")}})
 	}
-	if g.use >= 2 {
+	if g.use == 5 {
+		ts["ublk3"] = tpl("ublk3", &gen.NBlock{Name: "orig0", Body: blockBody("ublk3.orig0", true)}, tx("IGNORED-ublk3"), &gen.NBlock{Name: "orig1", Body: blockBody("ublk3.orig1", true)})
+	}
+	if g.use >= 2 && g.use != 5 {
 		ts["ublk"] = tpl("ublk", &gen.NBlock{Name: "orig0", Body: blockBody("ublk.orig0", true)})
 	}
 	return &Program{Templates: ts, Main: tname(g.L - 1), Ctx: map[string]interface{}{}}
@@ -220,7 +229,7 @@ func (p *c09) build(i int) (*Program, string, bool) {
 	r := gen.Rng(p.seed, "c09", i)
 	L := 2 + r.Intn(3)
 	B := 2 + r.Intn(3)
-	g := c09group{L: L, B: B, layout: r.Intn(3), use: r.Intn(5)}
+	g := c09group{L: L, B: B, layout: r.Intn(3), use: r.Intn(6)}
 	if L < 3 && g.use == 3 {
 		g.use = 2
 	}
@@ -250,6 +259,13 @@ func (p *c09) Describe(i int) interface{} {
 
 func (p *c09) Run(i int) (res fw.Result) {
 	prog, sig, nt := p.build(i)
+	if strings.Contains(sig, "/use5") {
+		p.runAliasChain(&res, prog, sig)
+		if nt {
+			res.Sigs = append(res.Sigs, sig)
+		}
+		return
+	}
 	lib, _, ok := modelCase(&res, "c09:"+sig, prog, gen.Canon{}, true)
 	if !ok {
 		res.Fail("harness", "c09:oor:"+sig, "configuration left the model's region", prog.describe())
@@ -268,8 +284,44 @@ func (p *c09) Run(i int) (res fw.Result) {
 	return
 }
 
+// runAliasChain: 'use lib with a as b, b as c'. The statement does not say whether the second alias names the
+// library's b or the b the first alias just made; either reading is accepted, but it has to be the same reading
+// every time the template is rendered.
+func (p *c09) runAliasChain(res *fw.Result, prog *Program, sig string) {
+	key := "c09:" + sig
+	modA, _, okA, _ := runModelWith(prog, &model.Interp{Prog: prog.Templates})
+	modB, _, okB, _ := runModelWith(prog, &model.Interp{Prog: prog.Templates, SeqAliases: true})
+	if !okA || !okB {
+		res.Fail("harness", "c09:oor:"+sig, "configuration left the model's region", prog.describe())
+		return
+	}
+	first := runLib(prog, gen.Canon{}, false)
+	res.AddObs("exec_steps", first.exSteps)
+	res.AddObs("callbacks_observed", int64(len(first.calls)))
+	res.AddObs("output_bytes", int64(len(first.out)))
+	res.AddClass("alias-chain")
+	mod := modA
+	if first.pan == nil && first.err == nil && first.out == modB.out {
+		mod = modB
+	}
+	if !compareRuns(res, key, prog, first, mod, true) {
+		return
+	}
+	if strings.Contains(first.out, "IGNORED") {
+		res.Fail("ignored-content", "c09:ign:"+sig, "content of a child outside blocks was rendered: "+clip(first.out, 300), prog.describe())
+	}
+	for k := 0; k < 7; k++ {
+		again := runLib(prog, gen.Canon{}, false)
+		res.AddObs("alias_chain_repeats", 1)
+		if again.out != first.out || callsString(again.calls) != callsString(first.calls) || (again.err == nil) != (first.err == nil) {
+			res.Fail("nondeterministic", key, fmt.Sprintf("the same templates rendered %q and then %q", clip(first.out, 300), clip(again.out, 300)), prog.describe())
+			return
+		}
+	}
+}
+
 func (p *c09) Rule() string {
-	return "bounded-exhaustive configurations: chain length L x block names B x for every non-root level and block one of {absent, override, override calling parent() - half of those with a nested block of their own in front of the call} (3^((L-1)B) patterns) x root layout {flat, blocks nested in b0, each block inside a 2-iteration loop} x use at one level {none, plain import of the last block name whose body calls parent(), aliased import 'orig0 as b0', the same library imported by the first child with that alias AND by the leaf without (L>=3), two use statements in one template (B>=2)}; half of the parent()-calling bodies, and every imported one, call parent() twice, a third render the next block through block() in front of parent(); children have a stray if / for / filter section / capture outside their blocks; quick: L<=3, B<=2, all layouts and use variants; thorough: full product L<=4, B<=4 on the flat layout (3^12 patterns at the top size) and L<=4, B<=3 for the other layouts/use variants. Parents are named by an expression ('t' ~ '0') in a third of the cases; every child has content outside blocks that must not render. Random: larger shapes with block() calls, a root-only block in a loop with a nested block overridden by the leaf. Every block body prints a unique marker and calls a recording function; oracle = reference model output and the callback log including Context.Name() (must be the defining template, also inside parent() bodies). Non-trivial = chain >= 2 with >= 1 override; enumerated configurations are distinct by construction."
+	return "bounded-exhaustive configurations: chain length L x block names B x for every non-root level and block one of {absent, override, override calling parent() - half of those with a nested block of their own in front of the call} (3^((L-1)B) patterns) x root layout {flat, blocks nested in b0, each block inside a 2-iteration loop} x use at one level {none, plain import of the last block name whose body calls parent(), aliased import 'orig0 as b0', the same library imported by the first child with that alias AND by the leaf without (L>=3), two use statements in one template (B>=2), a chain of aliases 'orig0 as orig1, orig1 as b0' in one statement - either reading of the second alias is accepted, but the same one in each of 8 renders}; half of the parent()-calling bodies, and every imported one, call parent() twice, a third render the next block through block() in front of parent(); children have a stray if / for / filter section / capture outside their blocks; quick: L<=3, B<=2, all layouts and use variants; thorough: full product L<=4, B<=4 on the flat layout (3^12 patterns at the top size) and L<=4, B<=3 for the other layouts/use variants. Parents are named by an expression ('t' ~ '0') in a third of the cases; every child has content outside blocks that must not render. Random: larger shapes with block() calls, a root-only block in a loop with a nested block overridden by the leaf. Every block body prints a unique marker and calls a recording function; oracle = reference model output and the callback log including Context.Name() (must be the defining template, also inside parent() bodies). Non-trivial = chain >= 2 with >= 1 override; enumerated configurations are distinct by construction."
 }
 
 func (p *c09) Assumptions() []string {
